@@ -22,7 +22,7 @@ func c03Grammar(maxW int) *enum.Grammar {
 	stmts := []enum.Prod{
 		leaf("5", model.Int(5)), leaf("(t! 1)", form("t!", model.Int(1))), leaf("(t! 2)", form("t!", model.Int(2))),
 		leaf("(g)", form("g")), leaf("(boom!)", form("boom!")), leaf("(pan!)", form("pan!")), leaf("(pans!)", form("pans!")),
-		leaf("(m)", form("m")), leaf("e", sym("e")), leaf("x", sym("x")),
+		leaf("(m)", form("m")), leaf("(mx)", form("mx")), leaf("e", sym("e")), leaf("x", sym("x")),
 		leaf("'(t! 9)", q(form("t!", model.Int(9)))), leaf("(list 't! 9)", form("list", q(sym("t!")), model.Int(9))),
 		{Name: "throw", Weight: 1, Kids: []int{TV}, Build: func(k []V) V { return form("throw", k[0]) }},
 		{Name: "T", Weight: 0 + 1, Kids: []int{T}, Build: func(k []V) V { return k[0] }},
@@ -71,6 +71,8 @@ func c03Wrap(t V) V {
 	return form("do",
 		form("def", sym("g"), form("fn", model.Vec(), form("throw", model.Str("g")))),
 		form("defmacro", sym("m"), form("fn", model.Vec(), q(form("throw", model.Kw("m"))))),
+		// mx throws a lisp value while it is being expanded
+		form("defmacro", sym("mx"), form("fn", model.Vec(), form("throw", mp(kw("code"), model.Int(1))))),
 		form("let", model.Vec(sym("x"), model.Int(7)), t))
 }
 
@@ -93,7 +95,7 @@ func init() {
 		}
 		fam := &vf.Family{
 			Name:   "try-nests",
-			Bounds: "all try forms of weight <=5 (quick) / <=6 (thorough): 0-2 body forms, optional (catch e 1-2 forms), optional (finally 0-2 forms), statements from 12 leaves + (throw V) over 8 thrown objects + nested try; under a prelude defining a throwing function, a throwing macro and an outer let variable",
+			Bounds: "all try forms of weight <=5 (quick) / <=6 (thorough): 0-2 body forms, optional (catch e 1-2 forms), optional (finally 0-2 forms), statements from 13 leaves (incl. a macro that throws while expanding) + (throw V) over 8 thrown objects + nested try; under a prelude defining a throwing function, a throwing macro and an outer let variable",
 			Setup:  func(t string) { tier = t; rg = newEvalRig(false); rg.ntTraceOnly = true },
 			N:      func(t string) int64 { tier = t; return gOf().Count(0, wOf(t)) },
 			Describe: func(i int64) string { return c03Wrap(gOf().Unrank(0, i)).Lisp() },
